@@ -68,6 +68,7 @@ pub proof fn lemma_roundtrip(a: AMsg, rest: Seq<u8>, index: int)
     ensures
         spec_parse_storage(ser_msg(a) + rest, index) == SParse::Msg(ser_msg(a).len() as int, reread(a, index)), // O:roundtrip.parse
 {
+    reveal(spec_parse_storage); reveal(spec_parse_serial);
     let f = ser_msg(a);
     let d = f + rest;
     let n = f.len() as int;
@@ -134,6 +135,7 @@ pub proof fn lemma_parsed_writable(d: Seq<u8>, index: int)
     requires spec_parse_storage(d, index) is Msg, le32(d[8], d[9], d[10], d[11]) < 1_000_000,
     ensures amsg_wf(spec_parse_storage(d, index)->Msg_1), // O:parsed_writable
 {
+    reveal(spec_parse_storage); reveal(spec_parse_serial);
     lemma_hdr_size_bounds(d[16]);
     let m = spec_parse_storage(d, index)->Msg_1;
     assert(le32(d[4], d[5], d[6], d[7]) <= u32::MAX);
@@ -172,6 +174,7 @@ pub proof fn theorem_export_reimport(ms: Seq<AMsg>, det_sto: bool, index: int)
     }),
     decreases ms.len(),
 {
+    reveal(spec_parse_storage); reveal(spec_parse_serial);
     let u = ser_all(ms);
     if ms.len() == 0 {
         assert(spec_parse_storage(u, index) is NotEnough);
